@@ -193,7 +193,8 @@ func Supervise(p *Prop, o Options) int {
 			var res Result
 			if rerr == nil && json.Unmarshal(rb, &res) == nil && res.Done && !timedOut {
 				results[i] = &res
-			} else {
+			}
+			if results[i] == nil || res.Partial {
 				d := &DeadChild{Shard: i, Race: race, TimedOut: timedOut, LogPath: logPath}
 				if err != nil {
 					d.ExitErr = err.Error()
@@ -267,11 +268,14 @@ func Supervise(p *Prop, o Options) int {
 				why := fmt.Sprintf("shard %d died without a result (timeout=%v, err=%s, banner=%q, log=%s)", i, d.TimedOut, d.ExitErr, d.Banner, d.LogPath)
 				inconclusive = append(inconclusive, why)
 			}
-			// the partial counters of a dead shard are lost; that is recorded
+			merged.Counters["shards_died"]++
+		}
+		r := results[i]
+		if r == nil {
+			// the counters of a shard that died before its first checkpoint are lost; recorded
 			merged.Counters["shards_without_result"]++
 			continue
 		}
-		r := results[i]
 		merged.Evals += r.Evals
 		for k, v := range r.Cover {
 			merged.Cover[k] += v
